@@ -203,8 +203,11 @@ def validate_runtime_trace(chk, tracefile):
     chk.extra["runtime_trace_events_matched"] = reached - 1
     ok = reached == len(tr) + 1 and r.ok
     chk.extra["runtime_trace_accepted"] = ok
-    if not r.ok:
-        chk.violation("the recorded run violates %s of Runtime.tla (an FFT ran with more than one thread, or the kernel variant does not match the thread setting)" % r.violated,
+    if not r.ok and r.violated in common.INTERNAL_INVARIANTS:
+        chk.drift_note("the recorded run violates %s of Runtime.tla (an FFT ran with more than one thread, or the kernel variant does not match the thread setting): %s"
+                       % (r.violated, json.dumps(tr[max(0, reached - 8): reached + 1])))
+    elif not r.ok:
+        chk.violation("the recorded run violates %s of Runtime.tla" % r.violated,
                       {"kind": "runtime_trace", "invariant": r.violated, "context": tr[max(0, reached - 8): reached + 1]}, klass={"check": "trace_invariant", "invariant": r.violated})
     elif not ok:
         chk.drift_note("runtime trace not explained by the specification at event %d: %s" % (reached, json.dumps(tr[max(0, reached - 5): reached + 1])))
